@@ -33,4 +33,17 @@ theorem gaussUnit_map :
   · ext
     simp [Real.sq_sqrt]
 
+/-- the whole mechanism: `value + (N₁+N₂)/√2 · scale ~ N(value, scale²)` -/
+theorem gauss_map (scale x : ℝ) :
+    ((gaussianReal 0 1).prod (gaussianReal 0 1)).map (fun n : ℝ × ℝ => gauss scale x n.1 n.2)
+      = gaussianReal x (.mk (scale ^ 2) (sq_nonneg _)) := by
+  have hcomp : (fun n : ℝ × ℝ => gauss scale x n.1 n.2)
+      = (fun z : ℝ => x + z) ∘ (fun z : ℝ => z * scale) ∘ (fun n : ℝ × ℝ => gaussUnit n.1 n.2) := by
+    funext n; simp [gauss]
+  have h1 : Measurable (fun z : ℝ => x + z) := measurable_const.add measurable_id
+  have h2 : Measurable (fun z : ℝ => z * scale) := measurable_id.mul_const _
+  rw [hcomp, ← Measure.map_map h1 (h2.comp measurable_gaussUnit), ← Measure.map_map h2 measurable_gaussUnit,
+    gaussUnit_map, gaussianReal_map_mul_const, gaussianReal_map_const_add]
+  simp
+
 end DPL.Smp
